@@ -456,6 +456,49 @@ def common_rewrites(ctx, sf, a, b, item_kind, opts):
                 ctx.fire("N4r", sf, t.start)
                 k = call_open + 4
                 continue
+        # N11: assert_eq!(A, B) -> assert!((A) == (B)); assert_ne! -> != (definition of the macros, message dropped)
+        if t.kind == "id" and t.text in ("assert_eq", "assert_ne", "debug_assert_eq") and toks[k + 1].text == "!" \
+                and toks[k + 2].text == "(":
+            close = pair[k + 2]
+            j = k + 3
+            comma = None
+            while j < close:
+                if toks[j].text in ("(", "[", "{"):
+                    j = pair[j] + 1
+                    continue
+                if toks[j].text == ",":
+                    comma = j
+                    break
+                j += 1
+            if comma is not None:
+                # second argument ends at next top-level comma or close
+                j2 = comma + 1
+                end2 = close
+                while j2 < close:
+                    if toks[j2].text in ("(", "[", "{"):
+                        j2 = pair[j2] + 1
+                        continue
+                    if toks[j2].text == ",":
+                        end2 = j2
+                        break
+                    j2 += 1
+                A = sf.text[toks[k + 3].start:toks[comma - 1].end]
+                B = sf.text[toks[comma + 1].start:toks[end2 - 1].end]
+                op = "!=" if t.text == "assert_ne" else "=="
+                edits.append(Edit(t.start, toks[close].end, f"assert!(({A}) {op} ({B}))"))
+                ctx.fire("N11", sf, t.start, t.text)
+                k = close + 1
+                continue
+        # N6: Err(<pure enum path>.into())  ->  Err(opaque_error(()))   (no evaluation is dropped: a path has none)
+        if t.kind == "id" and t.text == "Err" and toks[k + 1].text == "(":
+            close = pair[k + 1]
+            inner = toks[k + 2:close]
+            if len(inner) >= 5 and [x.text for x in inner[-4:]] == [".", "into", "(", ")"] \
+                    and all(x.kind == "id" or x.text == "::" for x in inner[:-4]):
+                edits.append(Edit(toks[k + 2].start, toks[close - 1].end, "opaque_error(())"))
+                ctx.fire("N6", sf, t.start, "Err(path.into())")
+                k = close + 1
+                continue
         # N6: log::x!(..) -> (); format!/anyhow!/… handled at listed sites via opts
         if t.kind == "id" and t.text == "log" and toks[k + 1].text == "::" and toks[k + 3].text == "!":
             close = pair[k + 4]
@@ -480,6 +523,31 @@ def ensure_pub(sf, it, in_trait_impl=False):
     if it.kind in ("fn", "const", "static", "struct", "enum", "mod", "type", "union", "trait") and not in_trait_impl:
         if toks[k].text != "pub":
             edits.append(Edit(toks[k].start, toks[k].start, "pub "))
+    if it.kind == "struct" and it.body_open is None:
+        # tuple struct: `struct Name<..>(T1, T2);`
+        j = k
+        while j < it.tok_hi and toks[j].text != "(":
+            j += 1
+        if j < it.tok_hi:
+            close = pair[j]
+            q = j + 1
+            start_field = True
+            depth = 0
+            while q < close:
+                t = toks[q]
+                if start_field and t.text != "pub":
+                    edits.append(Edit(t.start, t.start, "pub "))
+                start_field = False
+                if t.text in ("(", "["):
+                    q = pair[q] + 1
+                    continue
+                if t.text == "<":
+                    depth += 1
+                elif t.text == ">":
+                    depth -= 1
+                elif t.text == "," and depth == 0:
+                    start_field = True
+                q += 1
     if it.kind == "struct" and it.body_open is not None:
         j = it.body_open + 1
         expect_field = True
@@ -713,10 +781,14 @@ def build_fn(ctx, unit, fs):
             if want_kw and toks[kw].text != want_kw:
                 raise LostAnchor(f"{fs.path}: loop #{ordn} is `{toks[kw].text}`, contract expects `{want_kw}`")
             segs = []
+            for mode, cl in ls["extra"]:
+                if mode == "invariant_except_break":
+                    segs += clause_block(mode, cl, fn_label + f"/loop{ordn}", "        ")
             if ls["invariant"]:
                 segs += clause_block("invariant", ls["invariant"], fn_label + f"/loop{ordn}", "        ")
             for mode, cl in ls["extra"]:
-                segs += clause_block(mode, cl, fn_label + f"/loop{ordn}", "        ")
+                if mode != "invariant_except_break":
+                    segs += clause_block(mode, cl, fn_label + f"/loop{ordn}", "        ")
             if ls["decreases"]:
                 segs.append(Seg("        " + ls["decreases"] + "\n", ("ins", fn_label + f"/loop{ordn}", "decreases", None)))
             multi.append((ins_off, segs, 0))
@@ -1106,7 +1178,7 @@ def assemble(repo, unit_path, extra_header=""):
         elif ent[0] == "fn":
             s, info, parent, sf = build_fn(ctx, unit, ent[1])
             wrap = ent[1].opts.get("impl_as") or parent
-            if wrap and not (wrap.startswith("impl") or wrap.startswith("trait")):
+            if wrap and not (wrap.startswith("impl") or wrap.startswith("trait ")):
                 wrap = None
             if wrap is None or open_impl is None or rustlex.norm_ws(wrap) != rustlex.norm_ws(open_impl):
                 close_impl()
